@@ -3799,3 +3799,466 @@ Proof.
   - rewrite (af_log _ _ F). exact b_log0.
   - intros m. rewrite Hg, (af_log _ _ F). apply b_life0.
 Qed.
+
+Lemma adj_idle_only_heap s s' : only_heap s s' -> adj_idle s -> adj_idle s'.
+Proof.
+  intros F (A & B & C). split; [rewrite (oh_adj _ _ F); exact A|]. split; [rewrite (oh_adj _ _ F); exact B|].
+  intros m. rewrite (oh_nd _ _ F). apply C.
+Qed.
+
+Lemma BInv_parent_registered X s m q :
+  BInv X s -> q ∈ parents (nd s m) -> q ∉ X -> inGraph (nd s q) = true.
+Proof.
+  intros B Hq Hx. apply (edges_parent_child s m q (b_edges _ _ B)) in Hq.
+  destruct (inGraph (nd s q)) eqn:E; [reflexivity|].
+  destruct (b_zero2 _ _ B q Hx E) as [Ec _]. rewrite Ec in Hq. inversion Hq.
+Qed.
+
+Lemma addChild_spec fuel s c p s' e :
+  Sta s -> BInv [c] s -> adj_idle s -> invq s = [] ->
+  (forall n b, has s n -> scope (nd s n) = Some b -> ~ inGen s b n -> valid (nd s n) = false) ->
+  has s c -> has s p ->
+  inGraph (nd s c) = true -> isNecessary (nd s c) = true -> valid (nd s p) = true ->
+  parents (nd s c) ++ [p] = decl (nd s c) ->
+  0 <= height (nd s c) < maxHeight s ->
+  scopeHeight s (scope (nd s c)) < height (nd s c) ->
+  (forall q, q ∈ parents (nd s c) -> height (nd s q) < height (nd s c)) ->
+  (forall b, scope (nd s p) = Some b -> inGraph (nd s b) = true) ->
+  addChild fuel s c p = Ok (s', e) ->
+  match e with
+  | None => BInv [] s' /\ ac_frame s s' /\ invq s' = [] /\ adj_idle s'
+  | Some x => adj_err x
+  end.
+Proof.
+  intros St B Hidle Hq0 Hdead Hc Hp Hgc Hnc Hvp Hpar Hrange Hscope Hlow Hsregp H.
+  assert (Hpd : p ∈ decl (nd s c)) by (rewrite <- Hpar; apply elem_of_app; right; left).
+  assert (Hpc : p <> c) by (intros ->; apply (no_cycle s c c St (dr_refl s c) Hpd)).
+  assert (Hnpc : ~ dreach s p c).
+  { intros Hr. apply Hpc. apply (no_cycle2 s p c St Hr). eapply dr_step; [apply dr_refl|exact Hpd]. }
+  unfold addChild, addChildWithoutAdjustingHeights in H.
+  set (s1 := link s c p) in *.
+  assert (Hv1 : valid (nd s1 p) = true) by (unfold s1; rewrite valid_nd_link; exact Hvp).
+  rewrite Hv1 in H.
+  pose proof (BInv_link [] s c p B Hc Hp Hgc) as B1.
+  assert (F1 : bn_frame s s1) by apply bn_frame_link.
+  assert (St1 : Sta s1) by (apply (Sta_bn_frame s s1 F1 St)).
+  assert (Hpar1 : parents (nd s1 c) = decl (nd s1 c)).
+  { unfold s1. rewrite parents_nd_link by exact Hc. rewrite decide_True, decl_nd_link by reflexivity. exact Hpar. }
+  assert (Hchi1 : children (nd s1 p) = children (nd s p) ++ [c]).
+  { unfold s1. rewrite children_nd_link by exact Hp. rewrite decide_True by reflexivity. reflexivity. }
+  assert (Hg1 : forall m, inGraph (nd s1 m) = inGraph (nd s m)) by (intros; apply inGraph_nd_link).
+  assert (Hh1 : forall m, height (nd s1 m) = height (nd s m)) by (intros; apply height_nd_link).
+  assert (HpX : p ∉ [c]) by (intros Hx; apply elem_of_list_singleton in Hx; contradiction).
+  apply ebind_inv in H as (s2 & e2 & H2 & Hrest).
+  (* the input is necessary now *)
+  assert (Mid : match e2 with
+                | Some x => adj_err x
+                | None => BInv [c] s2 /\ bn_frame s1 s2 /\ nd s2 c = nd s1 c /\ invq s2 = invq s1 /\
+                          inGraph (nd s2 p) = true /\
+                          (forall m, inGraph (nd s1 m) = true -> height (nd s2 m) = height (nd s1 m))
+                end).
+  { destruct (isNecessary (nd s p)) eqn:Enec.
+    - apply ok_inv in H2 as [-> ->].
+      assert (Hgp : inGraph (nd s p) = true) by (rewrite (b_nec _ _ B p HpX); exact Enec).
+      split; [|split; [apply bn_frame_refl|repeat split; auto]]; [|rewrite Hg1; exact Hgp].
+      apply (BInv_close [c] s1 p B1).
+      + rewrite Hg1, Hgp. discriminate.
+      + rewrite Hg1, Hgp. symmetry. apply isNecessary_true. right; left. rewrite Hchi1.
+        intros E. apply app_eq_nil in E as [_ E]. discriminate.
+      + intros _. split.
+        * unfold s1. rewrite parents_nd_link by exact Hc. rewrite decide_False by exact Hpc.
+          rewrite decl_nd_link. apply (b_par _ _ B p HpX Hgp).
+        * apply (good_h_ext s s1); auto; unfold s1; autorewrite with eng; try reflexivity.
+          -- rewrite parents_nd_link by exact Hc. rewrite decide_False by exact Hpc. reflexivity.
+          -- apply (b_height _ _ B p HpX Hgp).
+    - assert (Hgp : inGraph (nd s p) = false) by (rewrite (b_nec _ _ B p HpX); exact Enec).
+      pose proof (BN_spec_all fuel s1 p [c] s2 e2 St1 B1) as Post.
+      assert (Post' : match e2 with None => bn_post [c] s1 p s2 | Some x => x = EHeightLimit end).
+      { apply Post; try assumption.
+        - apply has_link, Hp.
+        - rewrite Hg1. exact Hgp.
+        - apply isNecessary_true. right; left. rewrite Hchi1.
+          intros E. apply app_eq_nil in E as [_ E]. discriminate.
+        - intros x. rewrite Hchi1. destruct (b_zero2 _ _ B p HpX Hgp) as [-> _].
+          intros ->%elem_of_list_singleton. left.
+        - intros b. rewrite Hg1. unfold s1. rewrite scope_nd_link. apply Hsregp.
+        - intros x ->%elem_of_list_singleton. exists c. split; [apply dr_refl|].
+          unfold s1. rewrite decl_nd_link. exact Hpd. }
+      destruct e2 as [x|]; [right; exact Post'|].
+      destruct (BN_frame fuel s1 p s2 None H2) as [F2 T2].
+      destruct Post' as [P1 P2 P3 P4 P5 P6].
+      split; [exact P1|]. split; [exact F2|]. split; [|split; [exact P2|split; [exact P3|exact P4]]].
+      apply T2. intros Hr. apply Hnpc. apply (dreach_ext s1 s); [|exact Hr].
+      intros m. unfold s1. rewrite decl_nd_link. reflexivity. }
+  destruct e2 as [x|].
+  { destruct Hrest as [[? _]|(_ & _ & ->)]; [discriminate|exact Mid]. }
+  destruct Hrest as [[_ H]|(Hne & _)]; [|congruence].
+  destruct Mid as (B2 & F2 & Ec2 & Iq2 & Gp2 & Hh2).
+  assert (F02 : bn_frame s s2) by (eapply bn_frame_trans; eauto).
+  assert (St2 : Sta s2) by (apply (Sta_bn_frame s s2 F02 St)).
+  assert (Hidle2 : adj_idle s2) by (apply (adj_idle_bn s s2 F02 Hidle)).
+  assert (Hq2 : invq s2 = []) by (rewrite Iq2; unfold s1; rewrite invq_link; exact Hq0).
+  assert (Hgc2 : inGraph (nd s2 c) = true) by (rewrite Ec2, Hg1; exact Hgc).
+  assert (Hhc2 : height (nd s2 c) = height (nd s c)) by (rewrite Ec2; apply Hh1).
+  assert (Hpar2 : parents (nd s2 c) = decl (nd s2 c)).
+  { rewrite Ec2. exact Hpar1. }
+  assert (Hparc2 : parents (nd s2 c) = parents (nd s c) ++ [p]).
+  { rewrite Ec2. unfold s1. rewrite parents_nd_link by exact Hc. rewrite decide_True by reflexivity. reflexivity. }
+  assert (Hnc2 : isNecessary (nd s2 c) = true).
+  { rewrite Ec2. rewrite <- Hnc. apply isNecessary_ext; unfold s1; autorewrite with eng; auto.
+    rewrite children_nd_link by exact Hp. rewrite decide_False by congruence. reflexivity. }
+  assert (Hold : forall q, q ∈ parents (nd s c) -> height (nd s2 q) = height (nd s q)).
+  { intros q Hq. rewrite Hh2, Hh1; [reflexivity|]. rewrite Hg1.
+    apply (BInv_parent_registered [c] s c q B Hq). intros Hx%elem_of_list_singleton. subst q.
+    apply (no_cycle s c c St (dr_refl s c)). rewrite <- Hpar. apply elem_of_app. left. exact Hq. }
+  assert (Hmh2 : maxHeight s2 = maxHeight s) by (rewrite (bf_maxHeight _ _ F02); reflexivity).
+  assert (Hscc2 : scope (nd s2 c) = scope (nd s c)) by apply (bf_static _ _ F02 c).
+  assert (Hsch2 : scopeHeight s2 (scope (nd s2 c)) = scopeHeight s (scope (nd s c))).
+  { rewrite Hscc2. unfold scopeHeight. destruct (scope (nd s c)) as [b|] eqn:Eb; [|reflexivity].
+    rewrite Hh2, Hh1; [reflexivity|]. rewrite Hg1. apply (b_sreg _ _ B c b Hgc Eb). }
+  apply ebind_inv in H as (s3 & e3 & H3 & Hrest).
+  (* heights *)
+  assert (Adj : match e3 with
+                | Some x => adj_err x
+                | None => BInv [] s3 /\ ac_frame s2 s3 /\ invq s3 = [] /\ adj_idle s3
+                end).
+  { destruct (Z.geb_spec (height (nd s2 p)) (height (nd s2 c))) as [Hge|Hlt].
+    - assert (AS : AStat s2).
+      { apply (AStat_of [c] s2 St2 B2).
+        - intros x ->%elem_of_list_singleton. split; [rewrite Hgc2, Hnc2; reflexivity|].
+          intros q. rewrite Hpar2. auto.
+        - intros n b. rewrite (bf_has _ _ F02). destruct (bf_static _ _ F02 n) as (_ & _ & -> & -> & _).
+          unfold inGen, bd. rewrite (bf_binds _ _ F02). apply Hdead. }
+      assert (HI : HInv (fun m q => m = c /\ q = p) noEx s2).
+      { destruct Hidle2 as (I1 & I2 & I3). constructor.
+        - intros m Hm. destruct (decide (m = c)) as [->|Hmc]; [rewrite Hhc2, Hmh2; exact Hrange|].
+          apply (b_height _ _ B2 m); [intros Hx%elem_of_list_singleton; contradiction|exact Hm].
+        - intros m q Hm Hq _ Hex. destruct (decide (m = c)) as [->|Hmc].
+          + rewrite Hparc2, elem_of_app, elem_of_list_singleton in Hq. destruct Hq as [Hq| ->]; [|exfalso; apply Hex; auto].
+            rewrite Hhc2, (Hold q Hq). apply Hlow, Hq.
+          + apply (b_height _ _ B2 m); [intros Hx%elem_of_list_singleton; contradiction|exact Hm|exact Hq].
+        - intros m b Hm Hb _ _. destruct (decide (m = c)) as [->|Hmc].
+          + pose proof Hscope as Hs. rewrite <- Hsch2, Hb in Hs. simpl in Hs. rewrite Hhc2. exact Hs.
+          + destruct (b_height _ _ B2 m ltac:(intros Hx%elem_of_list_singleton; contradiction) Hm) as (_ & _ & Hs).
+            rewrite Hb in Hs. exact Hs.
+        - intros m Hm. apply (b_zero1 _ _ B2 m Hm).
+        - destruct (b_heap _ _ B2) as [E1 E2]. split; [exact E1|]. intros n Hn. destruct (E2 n Hn). auto.
+        - apply adj_idle_ok. repeat split; assumption. }
+      pose proof (adjustHeights_spec fuel s2 c p s3 e3 AS HI Hgc2 ltac:(congruence) H3) as R.
+      destruct e3 as [x|]; [exact R|]. destruct R as (R1 & R2 & R3).
+      destruct (HInv_done s3 R1 R2) as (D1 & D2 & D3 & D4 & D5).
+      split; [|split; [apply ac_frame_aj, R3|split; [rewrite (af_invq _ _ R3); exact Hq2|repeat split; assumption]]].
+      apply (BInv_after_adjust [c] s2 s3 B2 R3 D4 D5).
+      + intros m. apply (h_zero _ _ _ R1).
+      + intros x ->%elem_of_list_singleton. auto.
+    - apply ok_inv in H3 as [-> ->].
+      split; [|split; [apply ac_frame_refl|split; [exact Hq2|exact Hidle2]]].
+      apply (BInv_close [] s2 c B2).
+      + rewrite Hgc2. discriminate.
+      + rewrite Hgc2, Hnc2. reflexivity.
+      + intros _. split; [exact Hpar2|]. split; [rewrite Hhc2, Hmh2; exact Hrange|]. split.
+        * intros q. rewrite Hparc2, elem_of_app, elem_of_list_singleton. intros [Hq| ->]; [|exact Hlt].
+          rewrite Hhc2, (Hold q Hq). apply Hlow, Hq.
+        * rewrite Hsch2, Hhc2. exact Hscope. }
+  destruct e3 as [x|].
+  { destruct Hrest as [[? _]|(_ & _ & ->)]; [discriminate|exact Adj]. }
+  destruct Hrest as [[_ H]|(Hne & _)]; [|congruence].
+  destruct Adj as (B3 & F3 & Hq3 & Hidle3).
+  assert (F03 : ac_frame s s3) by (eapply ac_frame_trans; [apply ac_frame_bn, F02|exact F3]).
+  apply ebind_inv in H as (s4 & e4 & H4 & Hrest). apply lift_inv in H4 as [H4 ->].
+  destruct Hrest as [[_ H]|(Hne & _)]; [|congruence].
+  assert (E4 : s4 = s3).
+  { destruct fuel as [|k]; [discriminate|]. rewrite (propagateInvalidity_nil k s3 Hq3) in H4. congruence. }
+  subst s4.
+  assert (Hgc3 : inGraph (nd s3 c) = true) by (apply (cf_mono _ _ F3), Hgc2).
+  destruct (_ || _).
+  - apply lift_inv in H as [H ->].
+    assert (Hh3 : 0 <= height (nd s3 c)).
+    { destruct (b_height _ _ B3 c ltac:(intros Hx; inversion Hx) Hgc3) as (A & _). lia. }
+    destruct (heap_ok_heapAddIfNotPresent s3 c s' (b_heap _ _ B3) Hgc3 Hh3 H) as [F5 Hk5].
+    split; [apply (BInv_only_heap [] s3 s' F5 Hk5 B3)|].
+    split; [eapply ac_frame_trans; [exact F03|apply ac_frame_bn, bn_frame_only_heap, F5]|].
+    split; [rewrite (oh_invq _ _ F5); exact Hq3|apply (adj_idle_only_heap s3 s' F5 Hidle3)].
+  - apply ok_inv in H as [-> ->]. auto.
+Qed.
+
+Lemma Rest_ac_frame s s' :
+  ac_frame s s' -> invq s' = [] -> adj_idle s' ->
+  (forall m, inGraph (nd s' m) = true -> valid (nd s' m) = true) ->
+  Rest s -> Rest s'.
+Proof.
+  intros F Hq (I1 & I2 & I3) Hvr R.
+  destruct R as [r_ids0 r_binds0 r_kinds0 r_scopes0 r_scoping0 r_vtop0 r_vdead0 r_vgen0 r_quiet0 r_shape0 r_stamps0 r_inval0].
+  assert (Hk : forall n, nkind (nd s' n) = nkind (nd s n)) by (intros n; apply (cf_static _ _ F n)).
+  assert (Hd : forall n, decl (nd s' n) = decl (nd s n)) by (intros n; apply (cf_static _ _ F n)).
+  assert (Hsc : forall n, scope (nd s' n) = scope (nd s n)) by (intros n; apply (cf_static _ _ F n)).
+  assert (Hv : forall n, valid (nd s' n) = valid (nd s n)) by (intros n; apply (cf_static _ _ F n)).
+  assert (Hf : forall n, forceNec (nd s' n) = forceNec (nd s n)) by (intros n; apply (cf_static _ _ F n)).
+  assert (Hbd : forall b, bd s' b = bd s b) by (intros b; unfold bd; rewrite (cf_binds _ _ F); reflexivity).
+  constructor.
+  - apply (ids_ok_ext s s'); auto; apply F.
+  - apply (binds_wf_ext s s'); auto; apply F.
+  - apply (kinds_ok_ext s s'); auto; apply F.
+  - apply (scopes_ok_ext s s'); auto; apply F.
+  - apply (scoping_ok_ext s s'); auto; apply F.
+  - intros n. rewrite Hsc, Hv. auto.
+  - intros n b. rewrite (cf_has _ _ F), Hsc, Hv. unfold inGen. rewrite Hbd. intros H1 H2 H3.
+    destruct (r_vdead0 n b H1 H2 H3) as [H4 H5]. split; [exact H4|].
+    destruct (inGraph (nd s' n)) eqn:E; [|reflexivity]. apply Hvr in E. rewrite Hv in E. congruence.
+  - intros n b. unfold inGen. rewrite Hbd, !Hv. apply r_vgen0.
+  - destruct r_quiet0 as [q_anum0 q_invq0 q_status0 q_setDuring0 q_setRemoved0 q_handlers0 q_force0 q_hadj0 q_by0]. split; auto.
+    + rewrite (cf_status _ _ F). assumption.
+    + rewrite (cf_setDuring _ _ F). assumption.
+    + rewrite (cf_setRemoved _ _ F). assumption.
+    + rewrite (cf_handlers _ _ F). assumption.
+    + intros n. rewrite Hf. auto.
+  - destruct r_shape0 as [A B]. split; [rewrite (cf_maxHeight _ _ F); exact A|].
+    rewrite (cf_len _ _ F), (cf_maxHeight _ _ F). exact B.
+  - destruct r_stamps0 as [S1 S2]. split; rewrite (cf_stabNum _ _ F); [exact S1|].
+    intros n. destruct (cf_static _ _ F n) as (_&_&_&_&_&_& -> & -> & -> &_). apply S2.
+  - intros n. rewrite Hv. destruct (cf_log _ _ F) as (l & -> & Hl). rewrite (nec_inval l n Hl). auto.
+Qed.
+
+(** ** AddInput *)
+Definition is_addinput (o : op) : bool := match o with AddInput _ _ => true | _ => false end.
+
+Theorem Inv_step_addinput s o s' e :
+  Inv s -> op_ok s o = true -> op_clean s o = true -> is_addinput o = true ->
+  step s o = Ok (s', e) -> e <> Some ECycle -> e <> Some EHeightLimit -> Inv s'.
+Proof.
+  intros HI Hok Hcl Hgo Hstep He1 He2. destruct o as [| | | | | | | | | | | | | | |n a| | | |]; try discriminate.
+  simpl in Hstep, Hok, Hcl.
+  apply andb_true_iff in Hok as [Hn _]. apply isMapN_true in Hn as [Hn [fn Hkn]].
+  apply andb_true_iff in Hcl as [[Htn Hta]%andb_true_iff Hlt].
+  apply isTop_true in Htn as [_ Hscn]. apply isTop_true in Hta as [Ha Hsca]. apply Nat.ltb_lt in Hlt.
+  unfold addInput in Hstep.
+  set (s1 := upd s n (set decl (fun l => l ++ [a]))) in *.
+  pose proof (Inv_TInv s HI) as T. pose proof (Inv_Rest s HI) as R. pose proof (Inv_sreg s HI) as Hsreg.
+  assert (Hnd : forall m, nd s1 m = if decide (m = n) then set decl (fun l => l ++ [a]) (nd s n) else nd s m).
+  { intros m. unfold s1. apply nd_upd, Hn. }
+  assert (Hfield : forall {A} (g : node -> A), (forall x f, g (set decl f x) = g x) -> forall m, g (nd s1 m) = g (nd s m)).
+  { intros A g Hg' m. rewrite Hnd. destruct (decide (m = n)) as [->|]; [apply Hg'|reflexivity]. }
+  assert (Hdecl : forall m, decl (nd s1 m) = if decide (m = n) then decl (nd s n) ++ [a] else decl (nd s m)).
+  { intros m. rewrite Hnd. destruct (decide (m = n)); reflexivity. }
+  assert (Hhas : forall m, has s1 m <-> has s m) by (intros m; apply (has_upd s n)).
+  assert (Hsc : forall m, scope (nd s1 m) = scope (nd s m)) by (apply Hfield; reflexivity).
+  assert (Hk : forall m, nkind (nd s1 m) = nkind (nd s m)) by (apply Hfield; reflexivity).
+  assert (Hv : forall m, valid (nd s1 m) = valid (nd s m)) by (apply Hfield; reflexivity).
+  assert (Hg : forall m, inGraph (nd s1 m) = inGraph (nd s m)) by (apply Hfield; reflexivity).
+  assert (R1 : Rest s1).
+  { destruct R as [r_ids0 r_binds0 r_kinds0 r_scopes0 r_scoping0 r_vtop0 r_vdead0 r_vgen0 r_quiet0 r_shape0 r_stamps0 r_inval0].
+    constructor.
+    - destruct r_ids0 as [I1 I2]. split; [intros m Hm; apply I1, Hhas, Hm|].
+      intros m q. rewrite Hdecl, Hhas. destruct (decide (m = n)) as [->|]; [|apply I2].
+      rewrite elem_of_app, elem_of_list_singleton. intros [Hq| ->]; [eapply I2, Hq|exact Ha].
+    - intros b r Hr. apply (bind_wf_mono' s s1); auto; try (intros; apply Hhas; assumption).
+      + rewrite Hdecl. rewrite decide_False; [reflexivity|]. intros <-.
+        rewrite (bw_kind_lhs s b r (r_binds0 b r Hr)) in Hkn. discriminate.
+      + rewrite Hdecl. rewrite decide_False; [reflexivity|]. intros <-.
+        rewrite (bw_kind_main s b r (r_binds0 b r Hr)) in Hkn. discriminate.
+    - apply (kinds_ok_ext s s1); auto.
+    - apply (scopes_ok_ext s s1); auto.
+    - destruct r_scoping0 as [S1 S2 S3 S4]. split.
+      + intros m q. rewrite Hdecl, !Hsc, Hk. destruct (decide (m = n)) as [->|]; [|apply S1].
+        rewrite elem_of_app, elem_of_list_singleton. intros [Hq| ->]; [apply S1, Hq|left; exact Hsca].
+      + intros m q b. rewrite Hdecl, !Hsc. destruct (decide (m = n)) as [->|]; [|apply S2].
+        intros _ E. congruence.
+      + intros b q. rewrite Hsc. apply S3.
+      + intros m q. rewrite Hdecl. destruct (decide (m = n)) as [->|].
+        * rewrite elem_of_app, elem_of_list_singleton. intros [Hq| ->]; [apply (mu_lt_ext s s1 Hsc), S4, Hq|].
+          intros tq dq tn dn Cq Cn.
+          apply chain_top_inv in Cq as [-> ->]; [|rewrite Hsc; exact Hsca].
+          apply chain_top_inv in Cn as [-> ->]; [|rewrite Hsc; exact Hscn]. left. exact Hlt.
+        * intros Hq. apply (mu_lt_ext s s1 Hsc), S4, Hq.
+    - intros m. rewrite Hsc, Hv. auto.
+    - intros m b. rewrite Hhas, Hsc, Hv, Hg. apply r_vdead0.
+    - intros m b. rewrite !Hv. apply r_vgen0.
+    - apply (quiet_ext s s1); auto; apply Hfield; reflexivity.
+    - apply (shape_ok_ext s s1); auto.
+    - apply (stamps_ok_ext s s1); auto; apply Hfield; reflexivity.
+    - intros m. rewrite Hv. apply r_inval0. }
+  (* the dynamic clauses of s1, with n open *)
+  assert (B1 : BInv [n] s1).
+  { pose proof (TInv_BInv s T Hsreg) as B0.
+    destruct B0 as [b_edges0 b_zero10 b_zero20 b_nec0 b_par0 b_height0 b_heap0 b_count0 b_obs0 b_valid0 b_sreg0 b_log0 b_life0].
+    assert (Hnil : forall m : nid, m ∉ []) by (intros m Hm; inversion Hm).
+    constructor.
+    - apply (edges_ok_ext s s1); auto; apply Hfield; reflexivity.
+    - intros m. rewrite Hg, (Hfield _ parents), (Hfield _ height) by reflexivity. apply b_zero10.
+    - intros m _. rewrite Hg, (Hfield _ children), (Hfield _ observers) by reflexivity. apply b_zero20, Hnil.
+    - intros m _. rewrite Hg, (isNecessary_ext (nd s1 m) (nd s m)); try (apply Hfield; reflexivity). apply b_nec0, Hnil.
+    - intros m Hm. rewrite Hg, (Hfield _ parents), Hdecl by reflexivity.
+      rewrite decide_False by (intros ->; apply Hm; left). apply b_par0, Hnil.
+    - intros m _. rewrite Hg. intros Hgm.
+      apply (good_h_ext s s1); auto; try (apply Hfield; reflexivity); try apply (b_height0 m (Hnil m) Hgm).
+    - apply (heap_ok_ext s s1); auto; apply Hfield; reflexivity.
+    - apply (count_ok_ext s s1); auto.
+    - apply (obs_ok_ext s s1); auto; try (apply Hfield; reflexivity).
+    - intros m. rewrite Hg, Hv. apply b_valid0.
+    - intros m b. rewrite !Hg, Hsc. apply b_sreg0.
+    - exact b_log0.
+    - intros m. rewrite Hg. apply b_life0. }
+  rewrite (Hfield _ height) in Hstep by reflexivity.
+  destruct (Z.eqb_spec (height (nd s n)) unset) as [Hu|Hu].
+  - (* n is not registered *)
+    apply ok_inv in Hstep as [-> _].
+    assert (Hgn : inGraph (nd s n) = false).
+    { destruct (inGraph (nd s n)) eqn:E; [|reflexivity]. destruct (inv_height s HI n E) as ((A & _) & _). unfold unset in Hu. lia. }
+    apply TInv_Rest_Inv; [|exact R1]. apply BInv_TInv. apply (BInv_close [] s1 n B1).
+    + rewrite Hg, (Hfield _ children), (Hfield _ observers) by reflexivity. intros _.
+      destruct (inv_zero s HI n Hgn) as (_ & ? & ? & _). auto.
+    + rewrite Hg, (isNecessary_ext (nd s1 n) (nd s n)); try (apply Hfield; reflexivity). apply (inv_nec s HI n).
+    + rewrite Hg, Hgn. discriminate.
+  - (* n is registered *)
+    assert (Hgn : inGraph (nd s n) = true).
+    { destruct (inGraph (nd s n)) eqn:E; [reflexivity|]. destruct (inv_zero s HI n E) as (_ & _ & _ & ?). contradiction. }
+    destruct (inv_height s HI n Hgn) as (Hr & Hlow & Hscope).
+    assert (St1 : Sta s1).
+    { destruct R1. split; auto. apply valid_closed; auto. }
+    apply ebind_inv in Hstep as (s2 & e2 & H2 & Hrest).
+    assert (Hidle1 : adj_idle s1).
+    { destruct (inv_quiet s HI). repeat split; auto. intros m. rewrite (Hfield _ hAdj) by reflexivity. auto. }
+    pose proof (addChild_spec (opFuel s1) s1 n a s2 e2 St1 B1 Hidle1 (q_invq s (inv_quiet s HI))) as AC.
+    assert (AC' : match e2 with None => BInv [] s2 /\ ac_frame s1 s2 /\ invq s2 = [] /\ adj_idle s2 | Some x => adj_err x end).
+    { apply AC; auto.
+      - intros m b Hm Hs Hno. apply (r_vdead s1 R1 m b Hm Hs Hno).
+      - apply Hhas, Hn.
+      - apply Hhas, Ha.
+      - rewrite Hg. exact Hgn.
+      - rewrite (isNecessary_ext (nd s1 n) (nd s n)); try (apply Hfield; reflexivity). rewrite <- (inv_nec s HI n). exact Hgn.
+      - rewrite Hv. apply (vo_top s (inv_valid s HI)), Hsca.
+      - rewrite (Hfield _ parents), Hdecl, decide_True by reflexivity. rewrite (inv_par s HI n Hgn). reflexivity.
+      - rewrite (Hfield _ height) by reflexivity. exact Hr.
+      - rewrite Hsc, (Hfield _ height), (scopeHeight_ext s s1) by (try reflexivity; apply Hfield; reflexivity). exact Hscope.
+      - intros q. rewrite (Hfield _ parents), !(Hfield _ height) by reflexivity. apply Hlow.
+      - intros b. rewrite Hsc, Hsca. discriminate. }
+    destruct e2 as [x|].
+    { destruct Hrest as [[? _]|(_ & _ & ->)]; [discriminate|]. destruct AC' as [->| ->]; congruence. }
+    destruct Hrest as [[_ H]|(Hne & _)]; [|congruence]. apply lift_inv in H as [H _].
+    destruct AC' as (B2 & F2 & Hq2 & Hidle2).
+    assert (R2 : Rest s2) by (apply (Rest_ac_frame s1 s2 F2 Hq2 Hidle2 (b_valid _ _ B2) R1)).
+    pose proof (BInv_TInv s2 B2) as T2.
+    destruct (setStale_spec s2 n s') as (V & Hk' & Hsd); try assumption.
+    { apply Inv_hreg; apply T2. }
+    { apply T2. }
+    apply TInv_Rest_Inv.
+    + apply (TInv_struct _ _ s2 s'); [apply V|apply V|exact Hk'|exact T2].
+    + apply (Rest_var_step s2 s' V Hsd R2).
+Qed.
+
+(** * The pass *)
+(** ** the invariant between two recomputations of a pass *)
+Record pquiet (s : state) : Prop := {
+  pq_status : status s = 1;
+  pq_invq : invq s = [];
+  pq_adj : adj_idle s;
+  pq_force : forall n, forceNec (nd s n) = false;
+  pq_vars : forall v, v ∈ setDuring s \/ v ∈ setRemoved s -> exists e, nkind (nd s v) = KVar e
+}.
+
+Record PInv (s : state) : Prop := {
+  p_t : TInv [] noE s;
+  p_ids : ids_ok s;
+  p_binds : binds_wf s;
+  p_kinds : kinds_ok s;
+  p_scopes : scopes_ok s;
+  p_scoping : scoping_ok s;
+  p_vtop : forall n, scope (nd s n) = None -> valid (nd s n) = true;
+  p_vdead : forall n b, has s n -> scope (nd s n) = Some b -> ~ inGen s b n ->
+    valid (nd s n) = false /\ inGraph (nd s n) = false;
+  p_vgen : forall n b, inGen s b n -> valid (nd s n) = valid (nd s b);
+  p_pq : pquiet s;
+  p_shape : shape_ok s;
+  p_stamps : stamps_ok s;
+  p_inval : forall n, valid (nd s n) = false <-> EvInval n ∈ log s
+}.
+
+(* events a recomputation may log *)
+Definition ev_benign (s : state) (e : event) : Prop :=
+  match e with
+  | EvNec _ | EvUnnec _ | EvInval _ => False
+  | EvInvoked n _ _ | EvCutoff n _ _ _ | EvBindFn n _ _ => inGraph (nd s n) = true
+  | _ => True
+  end.
+
+Lemma lastNU_benign s l l' n : Forall (ev_benign s) l -> lastNU (l ++ l') n = lastNU l' n.
+Proof.
+  induction l as [|e l IH]; intros H; [reflexivity|].
+  apply stdpp.list.Forall_cons in H as [He Hl]. simpl. destruct e; simpl in He; try contradiction; apply IH, Hl.
+Qed.
+
+Lemma benign_inval s l l' n : Forall (ev_benign s) l -> (EvInval n ∈ l ++ l' <-> EvInval n ∈ l').
+Proof.
+  intros Hl. rewrite elem_of_app. split; [|auto]. intros [H|H]; [|exact H].
+  rewrite stdpp.list.Forall_forall in Hl. specialize (Hl _ H). contradiction.
+Qed.
+
+Lemma log_ok_benign s l l' :
+  Forall (ev_benign s) l -> (forall n, inGraph (nd s n) = true -> lastNU l' n = Some true) ->
+  log_ok l' -> log_ok (l ++ l').
+Proof.
+  intros Hl Hreg Hok. induction l as [|e l IH]; [exact Hok|].
+  apply stdpp.list.Forall_cons in Hl as [He Hl]. simpl. split; [|apply IH, Hl].
+  destruct e; simpl in *; try contradiction; try exact I; rewrite (lastNU_benign s l l' _ Hl); apply Hreg, He.
+Qed.
+
+Lemma PInv_soft s s' l :
+  PInv s -> same_struct s s' -> log s' = l ++ log s -> Forall (ev_benign s) l ->
+  heap_ok s' -> stamps_ok s' -> status s' = status s ->
+  (forall v, v ∈ setDuring s' \/ v ∈ setRemoved s' -> exists e, nkind (nd s v) = KVar e) ->
+  PInv s'.
+Proof.
+  intros [T Iids Ibinds Ikinds Iscopes Iscoping V1 V2 V3 [Q1 Q2 Q3 Q4 Q5] Ishape Istamps Iinval]
+         HS Hlog Hl Hk Hst Hstatus Hvars.
+  destruct HS as [Snext Sbinds Shas Sreg Sobs Sadj Sinvq Snum Smh Snode].
+  assert (Hk' : forall n, nkind (nd s' n) = nkind (nd s n)) by (intros n; apply Snode).
+  assert (Hd : forall n, decl (nd s' n) = decl (nd s n)) by (intros n; apply Snode).
+  assert (Hsc : forall n, scope (nd s' n) = scope (nd s n)) by (intros n; apply Snode).
+  assert (Hh : forall n, height (nd s' n) = height (nd s n)) by (intros n; apply Snode).
+  assert (Hhj : forall n, hAdj (nd s' n) = hAdj (nd s n)) by (intros n; apply Snode).
+  assert (Hp : forall n, parents (nd s' n) = parents (nd s n)) by (intros n; apply Snode).
+  assert (Hc : forall n, children (nd s' n) = children (nd s n)) by (intros n; apply Snode).
+  assert (Ho : forall n, observers (nd s' n) = observers (nd s n)) by (intros n; apply Snode).
+  assert (Hv : forall n, valid (nd s' n) = valid (nd s n)) by (intros n; apply Snode).
+  assert (Hf : forall n, forceNec (nd s' n) = forceNec (nd s n)) by (intros n; apply Snode).
+  assert (Hg : forall n, inGraph (nd s' n) = inGraph (nd s n)) by (intros n; apply Snode).
+  assert (Hbd : forall b, bd s' b = bd s b) by (intros b; unfold bd; rewrite Sbinds; reflexivity).
+  assert (Hnec : forall n, isNecessary (nd s' n) = isNecessary (nd s n)) by (intros; apply isNecessary_ext; auto).
+  destruct T as [t_edges0 t_zero0 t_nec0 t_necE0 t_W0 t_par0 t_height0 t_heap0 t_count0 t_obs0 t_valid0 t_log0 t_life0 t_lifeW0 t_nodup0].
+  assert (Hnil : forall m : nid, m ∉ []) by (intros m Hm; inversion Hm).
+  constructor.
+  - constructor.
+    + apply (edges_ok_ext s s'); auto.
+    + apply (zero_ok_ext s s'); auto.
+    + intros n. rewrite Hg, Hnec. apply t_nec0.
+    + intros n [].
+    + intros w Hw. inversion Hw.
+    + intros n. rewrite Hg, Hp, Hd. apply t_par0.
+    + apply (height_ok_ext s s'); auto.
+    + exact Hk.
+    + apply (count_ok_ext s s'); auto.
+    + apply (obs_ok_ext s s'); auto.
+    + intros n. rewrite Hg, Hv. apply t_valid0.
+    + rewrite Hlog. apply (log_ok_benign s); auto. intros n Hn. apply (t_life0 n (Hnil n)), Hn.
+    + intros n _. rewrite Hg, Hlog, (lastNU_benign s l _ n Hl). apply t_life0, Hnil.
+    + intros w Hw. inversion Hw.
+    + constructor.
+  - apply (ids_ok_ext s s'); auto.
+  - apply (binds_wf_ext s s'); auto.
+  - apply (kinds_ok_ext s s'); auto.
+  - apply (scopes_ok_ext s s'); auto.
+  - apply (scoping_ok_ext s s'); auto.
+  - intros n. rewrite Hsc, Hv. auto.
+  - intros n b. rewrite Shas, Hsc, Hv, Hg. unfold inGen. rewrite Hbd. apply V2.
+  - intros n b. unfold inGen. rewrite Hbd, !Hv. apply V3.
+  - split.
+    + rewrite Hstatus. exact Q1.
+    + rewrite Sinvq. exact Q2.
+    + destruct Q3 as (A & B & C). split; [rewrite Sadj; exact A|]. split; [rewrite Sadj; exact B|].
+      intros m. rewrite Hhj. apply C.
+    + intros n. rewrite Hf. apply Q4.
+    + intros v Hv'. rewrite Hk'. apply Hvars, Hv'.
+  - apply (shape_ok_ext s s'); auto.
+  - exact Hst.
+  - intros n. rewrite Hv, Hlog, (benign_inval s l _ n Hl). apply Iinval.
+Qed.
